@@ -330,7 +330,10 @@ func C13(e *Env) {
 			if res.Fail.Inconclusive {
 				run.Inconclusive(res.Fail.Error())
 			} else {
-				run.Violate("fault-free-"+res.Fail.Rule, sc.Name, fmt.Sprintf("[%s, no fault] %s", sc.Name, res.Fail.Detail), map[string]any{"scenario": sc.Name, "requests": reqStrings(sc.Reqs), "failed_at": res.FailAt, "transcript": tailStr(res.Log, 12)})
+				// the fault-free conversation itself is wrong: that belongs to the property that
+				// states its content (C02/C03/C05/C06); this scenario cannot serve as a reference
+				run.Count("scenarios_skipped_fault_free_run_not_as_modelled", 1)
+				run.Sample(map[string]any{"scenario_skipped": sc.Name, "fault_free_failure": res.Fail.Error()})
 			}
 			continue
 		}
